@@ -697,7 +697,11 @@ def _run(ctx, scns, do_compare=True):
 
 
 def correspondence(ctx):
-    return _run(ctx, gen_scenarios(ctx))
+    from props import c11_extra
+
+    r = _run(ctx, gen_scenarios(ctx))
+    r.merge(c11_extra.run(ctx))
+    return r
 
 
 def search(ctx, prior):
@@ -711,10 +715,18 @@ def search(ctx, prior):
             for k in range(1, len(s["events"])):
                 scns.append({"ports": s["ports"], "faults": s["faults"], "events": s["events"][:k], "family": "disagreement-prefix"})
     scns += gen_scenarios(ctx)
-    return _run(ctx, scns, do_compare=False)
+    from props import c11_extra
+
+    r = _run(ctx, scns, do_compare=False)
+    r.merge(c11_extra.run(ctx))
+    return r
 
 
 def replay(ctx, doc):
+    if doc["failure"]["input"].get("kind") == "ipv6-history":
+        from props import c11_extra
+
+        return c11_extra.replay(doc["failure"]["input"])
     scn = doc["failure"]["input"]
     obs = run_scenario(scn)
     bad = []
